@@ -9,6 +9,8 @@
 // interval, lifetime, poll interval, form path, issuer) — every clause the statement makes about the device
 // authorization response is decided, then the user code read from verification_uri_complete is approved and
 // the device polls before and after.
+//
+// Part 3 (hang.go): the storage's device-state look-up hangs until its context ends.
 package main
 
 import (
@@ -34,7 +36,7 @@ func main() {
 		}
 		run.Mandatory("success:"+rn, "success:"+rn+":conf", "success:"+rn+":public", "success:"+rn+":jwt",
 			"authorization_pending:"+rn, "access_denied:"+rn, "expired_token:"+rn, "slow_down:"+rn,
-			"unknown-code-refused:"+rn, "foreign-client-refused:"+rn, "config:"+rn)
+			"unknown-code-refused:"+rn, "foreign-client-refused:"+rn, "config:"+rn, "hang:slow_down:"+rn)
 	}
 	if run.ReplayCase() < 0 {
 		run.Mandatory("alphabet:base20", "alphabet:digits", "alphabet:single-symbol", "alphabet:unicode")
@@ -43,7 +45,9 @@ func main() {
 	nHist := run.N(2000, 50000)
 	nCfg := run.N(200, 5000)
 	if rc := run.ReplayCase(); rc >= 0 {
-		if rc >= cfgBase {
+		if rc >= hangBase {
+			runHang(run)
+		} else if rc >= cfgBase {
 			runConfig(run, int(rc-cfgBase))
 		} else {
 			runHistory(run, int(rc), 0)
@@ -55,9 +59,12 @@ func main() {
 		runHistory(run, i, 0)
 		runHistory(run, i, 1)
 	})
+	hangDone := make(chan struct{})
+	go func() { defer close(hangDone); runHang(run) }() // costs the library's own 4 s bound: runs beside the other parts
 	ev.Parallel(nCfg, 0, func(_ int, i int) {
 		runConfig(run, i)
 	})
+	<-hangDone
 	finish(run)
 }
 
